@@ -4,6 +4,7 @@ CONSTANTS
   Rows <- RowsB
   Atoms <- AtomsB
   MaxLevel = 2
+  WithPairs = FALSE
   ReasonBug = FALSE
 VIEW GView
 ACTION_CONSTRAINT Emit
